@@ -159,7 +159,7 @@ func VerifC08TypedVar() {
 		pth = c08Ints[vrtChoice("path", len(c08Ints))]
 		s = vrtString("val", vrtParam("IL", 3), "0123-+ a")
 	}
-	if vrtChoice("dottedNames", 2) == 1 {
+	if vrtParam("DOTTED", 0) == 1 {
 		c08SvcName, c08NetName = "web.api", "front.net"
 	} else {
 		c08SvcName, c08NetName = "s", "n"
